@@ -1271,12 +1271,17 @@ def check(rep, tier, seed):
     # interleave the families and run in chunks (a small one first): a badly broken tree (writer loops, crashes) stops early
     fams = {}
     for c in cases:
-        fams.setdefault(c["id"][0], []).append(c)
+        if c.get("origin") != "mutated":
+            fams.setdefault(c["id"][0], []).append(c)
     order = []
     for i in range(max(len(v) for v in fams.values())):
         for v in fams.values():
             if i < len(v):
                 order.append(v[i])
+    n_core = len(order)
+    # randomly mutated texts (thorough tier) come last and never stop the run: the reader disagreements they find are
+    # reported, but they are an open-ended exploration
+    order += [c for c in cases if c.get("origin") == "mutated"]
     res = {}
     bounds = [0, 400] + list(range(3400, len(order), 3000)) + [len(order)]
     for c0, c1 in zip(bounds, bounds[1:]):
@@ -1294,7 +1299,7 @@ def check(rep, tier, seed):
                 judge_rtg(rep, c, r, counters)
             else:
                 judge_x2(rep, c, r, counters)
-        if _unknown(rep) >= 60:
+        if c1 <= n_core and _unknown(rep) >= 60:
             rep.extra["stopped_early"] = "after %d of %d data cases: %d unexplained violations" % (c1, len(order), _unknown(rep))
             break
     if "__ghost__" in res:
